@@ -110,7 +110,7 @@ end
 
 def handleReelab (ctx ir : String) : String :=
   let items := parseAll ir
-  if items.any (Sx.hasHead "unsupported") || items.any (Sx.hasHead "intr") || (ctx.splitOn "unsupported").length > 1 then
+  if items.any (Sx.hasHead "unsupported") || (ctx.splitOn "unsupported").length > 1 then
     "unsupported" else
   match parseCtx? ctx, sequenceOpt (items.map parseFunc?) with
   | some inf, some prog =>
